@@ -392,6 +392,15 @@ func ruleXRefStreamCursor(c *eng.Ctx) {
 	}
 	calls := eng.CallsNamed(fn, false, "core.(*XRefParser).parseXRefStreamEntry")
 	if len(calls) == 0 {
+		// the table-building loop may have been moved into a stage of its own
+		for _, h := range eng.Cluster(fn, 2) {
+			if cs := eng.CallsNamed(h, false, "core.(*XRefParser).parseXRefStreamEntry"); len(cs) > 0 {
+				calls, fn = cs, h
+				break
+			}
+		}
+	}
+	if len(calls) == 0 {
 		c.Undec(R, "core.(*XRefParser).parseXRefStream#entry-read", fn.Pos(), "no call of parseXRefStreamEntry found")
 		return
 	}
